@@ -133,6 +133,9 @@ def setup(E, shape):
     else:
         # dyadic tolerances large enough for boundary cases to exist on a coarse dyadic grid
         kw.update(active_tol=0.25, lamb_min=2.0 ** -20)
+    if shape.get("lamb_params"):
+        # non-default growth / reduction factors of the ratio controllers (the defaults 2 and 1/2 are reciprocal)
+        kw.update(lamb_inc=shape["lamb_params"][0], lamb_red=shape["lamb_params"][1])
     ast = shape.get("active_set", "Standard")
     if ast != "Standard":
         kw["active_set_type"] = P.ActiveSetType[ast]
@@ -345,6 +348,13 @@ def ctrl_tasks(tier, extra=None):
         sh = dict(controller=c, newton=nt, vars=v, cons=cons, faults=True)
         sh.update(extra or {})
         t.append(dict(module="ctrl", fn="h_step", shape=sh, opts=o))
+    # growth / reduction factors that are not reciprocal (lamb_red = 1: no reduction after accepted steps)
+    for c, lp in (("DistanceRatio", [4.0, 1.0]), ("ResiduumRatio", [4.0, 1.0]), ("DistanceRatio", [1.5, 0.25])):
+        sh = dict(controller=c, newton="Simplified", vars=["boxed"], cons=[], faults=True, lamb_params=lp)
+        sh.update(extra or {})
+        t.append(dict(module="ctrl", fn="h_step", shape=sh, opts=o))
+        if lp[1] == 1.0:
+            t.append(dict(module="ctrl", fn="h_step", shape=dict(sh, concrete_params=True), opts=o))
     # active-set rules (explicit tau, smallest / largest active set)
     for ast, c, nt, cons in (("SmallestActiveSet", "DistanceRatio", "Simplified", []), ("LargestActiveSet", "DistanceRatio", "Simplified", []), ("Explicit", "Exact", "Full", []), ("SmallestActiveSet", "Exact", "ActiveSet", ["eq0"])):
         if q and cons:
@@ -422,3 +432,19 @@ def h_display_effect(E, shape):
     s1, s2 = dict(twin.object_state(c1)), dict(twin.object_state(c2))
     E.prove(sorted(s1) == sorted(s2), "C09.display_leaves_the_same_controller_memory")
     E.prove(land(*[s1[k] == s2[k] for k in s1 if k in s2]), "C09.display_leaves_the_same_controller_memory")
+    if shape.get("then_quiet"):
+        # behavioural form of the same obligation: the next, undisplayed step computation (smaller step after a
+        # failure / rejection, arbitrary otherwise) of the two controllers agrees -- whatever the displayed one kept
+        dt2 = E.real("dt2", lo=0, lo_strict=True)
+        nxt = r0.iterate
+        ctx["replay"].update(script=None, outs=[], beyond=False)
+        del ctx["solves"][:]
+        try:
+            q0 = c1.compute_step(nxt, rho, dt2, False, ctx["timer"])
+            ctx["replay"].update(script=list(ctx["replay"]["outs"]), outs=[])
+            del ctx["solves"][:]
+            q1 = c2.compute_step(nxt, rho, dt2, False, ctx["timer"])
+        finally:
+            ctx["rec"]["restore"]()
+        E.prove(not ctx["replay"]["beyond"], "C09.earlier_display_does_not_change_the_next_step")
+        E.prove(land(core.iff(bool(q0.accepted), bool(q1.accepted)), q0.lamb == q1.lamb, common.eq_all(items(q0.iterate.x), items(q1.iterate.x)), common.eq_all(items(q0.iterate.y), items(q1.iterate.y))), "C09.earlier_display_does_not_change_the_next_step")
